@@ -7,7 +7,7 @@
 use fbh::gal::*;
 use fbh::mapmodel::*;
 use fbh::prng::Rng;
-use fbh::report::{guarded, Report};
+use fbh::report::{crumb, guarded, Report};
 use fbh::Ctx;
 use duke::tree::class::{ObjClassName, ObjClassNameSlice};
 use quill::tree::mappings::Mappings;
@@ -72,6 +72,32 @@ fn impl_inner(s: &S) -> Result<(Option<S>, Option<S>), String> {
 	guarded(move || {
 		let n = unsafe { ObjClassNameSlice::from_inner_unchecked(&js) };
 		(n.get_inner_class_parent().map(|p| cps(p.as_inner())), n.get_inner_class_name().map(|p| cps(p.as_inner())))
+	})
+}
+
+/// ObjClassName::check_valid (is_valid_obj_class_name), and as_class_name() keeps the text
+fn impl_valid(s: &S) -> Result<bool, String> {
+	let js = jstring(s);
+	guarded(move || {
+		let ok = ObjClassName::check_valid(&js).is_ok();
+		let n = unsafe { ObjClassNameSlice::from_inner_unchecked(&js) };
+		assert!(n.as_class_name().as_inner() == n.as_inner(), "as_class_name changed the text");
+		ok
+	})
+}
+/// the JVMS binary-name grammar: `/`-separated non-empty parts without . ; [ /
+fn ref_valid(s: &[u32]) -> bool {
+	s.split(|&c| c == SLASH).all(|part| !part.is_empty() && !part.iter().any(|&c| c == '.' as u32 || c == ';' as u32 || c == '[' as u32))
+}
+fn column_valid(m: &MMappings, ns: usize) -> bool {
+	m.classes.iter().all(|c| match c.names.get(ns) { Some(Some(b)) => impl_valid(b) == Ok(true), _ => true })
+}
+
+fn impl_simple(s: &S) -> Result<S, String> {
+	let js = jstring(s);
+	guarded(move || {
+		let n = unsafe { ObjClassNameSlice::from_inner_unchecked(&js) };
+		cps(n.get_simple_name().as_inner())
 	})
 }
 
@@ -207,8 +233,10 @@ fn show_answer(a: &Option<MMappings>) -> String {
 // ---------------------------------------------------------------------------------------------
 // one input through everything
 
+/// distinct names that occurred (in inputs and in extended results), for the split / join / simple-name / validity cases
 #[derive(Default)]
-struct Seen { strings: Vec<S> }
+struct Seen { strings: Vec<S>, set: std::collections::HashSet<S> }
+impl Seen { fn add(&mut self, s: &S) { if self.strings.len() < 4000 && self.set.insert(s.clone()) { self.strings.push(s.clone()); } } }
 
 /// the column of class names in namespace `ns`, if `got` is exactly `m` with that column replaced
 fn column_of(m: &MMappings, ns: usize, got: &MMappings) -> Option<Vec<Option<S>>> {
@@ -226,6 +254,9 @@ fn g_col(c: &[Option<S>]) -> String { glist(c.iter().map(|o| gopt(o.as_ref().map
 
 fn through(r: &mut Report, seen: &mut Seen, stream: &str, m: &MMappings, name: &[u32], full: bool) {
 	let name_s: String = match name.iter().map(|&c| char::from_u32(c)).collect::<Option<String>>() { Some(s) => s, None => { r.count("skipped_namespace_not_scalar"); return; } };
+	// `map` recurses along the chain of outer classes: should the process die in there (stack overflow, endless
+	// recursion killed by the timeout), `check` reports this text as the failing input
+	crumb(&replay("the harness process died inside extend_inner_class_names / contract_inner_class_names on this input (unbounded recursion in the parent lookup?)", m, name, ""));
 	let out = match run_impl(m, &name_s) {
 		Ok(o) => o,
 		Err(_) => { r.count(&format!("not_constructible:{stream}")); return; }
@@ -277,6 +308,23 @@ fn through(r: &mut Report, seen: &mut Seen, stream: &str, m: &MMappings, name: &
 			}
 			con_col = match (got, ns) { (None, _) => Some(None), (Some(g), Some(ns)) => column_of(m, ns, g).map(Some), (Some(_), None) => None };
 			if full || con_col.is_none() { r.case(stream, format!("CContract {} {} {}", g_mappings(m), gstr(name), gres(got.as_ref().map(g_mappings)))); }
+			// contraction is idempotent, and what it leaves is never splittable again
+			if let Some(g) = got {
+				if g != m {
+					match run_impl(g, &name_s).map(|o| o.contract) {
+						Ok(Ok(Some(g2))) if g2 == *g => r.count("contract:idempotent"),
+						other => {
+							let what = "contract_inner_class_names is not idempotent (contracting the contracted set changes it again or fails)";
+							r.violation(what.into(), replay(what, m, name, &format!("contracted once:\n{}contracted twice: {}\n", show_mappings(g), match other { Ok(Ok(Some(x))) => format!("\n{}", show_mappings(&x)), Ok(Ok(None)) => "Err".into(), Ok(Err(p)) => format!("panic {p}"), Err(e) => format!("not constructible: {e}") })));
+						}
+					}
+				}
+				if let Some(ns) = ns { for c in &g.classes { if let Some(Some(b)) = c.names.get(ns) { if o_split(b).is_some() {
+					let what = "contract_inner_class_names left a name that is still an inner class name (Outer$Inner)";
+					r.violation(what.into(), replay(what, m, name, &format!("contracted:\n{}", show_mappings(g))));
+					break;
+				} } } }
+			}
 		}
 	}
 	// ---- contract ∘ extend ----
@@ -312,10 +360,24 @@ fn through(r: &mut Report, seen: &mut Seen, stream: &str, m: &MMappings, name: &
 		let g = |x: &Option<Vec<Option<S>>>| gres(x.as_ref().map(|c| g_col(c)));
 		r.case(stream, format!("CRun {} {} {} {} {} {} {}", g_mappings(m), gstr(name), g(a), g(b), g(c), gbool(simple), gbool(wellformed)));
 	} else { r.count("compact_form_not_applicable"); }
+	// valid object class names in, valid object class names out (the unsafe from_inner_unchecked of the helpers relies on it)
+	if let Some(ns) = ns {
+		if column_valid(m, ns) {
+			r.count("valid_names:in");
+			for (what, res) in [("extend_inner_class_names", &out.extend), ("contract_inner_class_names", &out.contract)] {
+				if let Ok(Some(g)) = res {
+					if !column_valid(g, ns) {
+						let w = format!("{what} produced a name that is not a valid object class name although every name it was given is one");
+						r.violation(w.clone(), replay(&w, m, name, &format!("result:\n{}", show_mappings(g))));
+					}
+				}
+			}
+		} else { r.count("valid_names:input has an invalid name (nothing demanded)"); }
+	}
 	// strings for the split / join cases
 	if seen.strings.len() < 4000 {
-		for c in &m.classes { for o in &c.names { if let Some(s) = o { seen.strings.push(s.clone()); } } }
-		if let Ok(Some(e)) = &out.extend { if let Some(ns) = ns { for c in &e.classes { if let Some(Some(s)) = c.names.get(ns) { seen.strings.push(s.clone()); } } } }
+		for c in &m.classes { for o in &c.names { if let Some(s) = o { seen.add(s); } } }
+		if let Ok(Some(e)) = &out.extend { if let Some(ns) = ns { for c in &e.classes { if let Some(Some(s)) = c.names.get(ns) { seen.add(s); } } } }
 	}
 }
 
@@ -424,6 +486,143 @@ fn unsimplify(rng: &mut Rng, m: &mut MMappings, ns: usize) -> Option<&'static st
 	Some(tag)
 }
 
+/// all proper outer class names of a source name, innermost first
+fn ancestors(s: &[u32]) -> Vec<S> { let mut v = vec![]; let mut cur = s; while let Some((p, _)) = o_split(cur) { v.push(p.to_vec()); cur = p; } v }
+
+/// Frame oracle on the implementation alone: the extended name of a class depends only on its OUTER classes.  A class that
+/// is nobody's outer class is removed / unnamed / renamed / moved to the front, or an unrelated class is added: extension
+/// must still succeed and every other class must come out exactly as before.
+fn frame_probe(r: &mut Report, rng: &mut Rng, m: &MMappings, name: &[u32]) {
+	let Some(ns) = ns_position(m, name) else { return };
+	if ns == 0 || m.classes.is_empty() { return; }
+	let Some(name_s) = name.iter().map(|&c| char::from_u32(c)).collect::<Option<String>>() else { return };
+	let Ok(base) = run_impl(m, &name_s) else { return };
+	let Ok(Some(e)) = base.extend else { return };
+	let keys: Vec<S> = m.classes.iter().filter_map(|c| c.names[0].clone()).collect();
+	let leaves: Vec<usize> = (0..m.classes.len()).filter(|&i| m.classes[i].names[0].as_ref().map_or(false, |k| !keys.iter().any(|s| ancestors(s).contains(k)))).collect();
+	if leaves.is_empty() { return; }
+	let i = *rng.pick(&leaves[..]);
+	let leaf_key = m.classes[i].names[0].clone();
+	let mut m2 = m.clone();
+	let (tag, skip): (&str, Option<S>) = match rng.below(5) {
+		0 => { m2.classes.remove(i); ("removed", leaf_key.clone()) }
+		1 => { m2.classes[i].names[ns] = None; ("unnamed", leaf_key.clone()) }
+		// (renaming a class that had no name would make the call depend on ITS outer classes being named: only named ones)
+		2 if m.classes[i].names[ns].is_some() => { m2.classes[i].names[ns] = Some(cps_str("Renamed$X")); ("renamed", leaf_key.clone()) }
+		3 => { let c = m2.classes.remove(i); m2.classes.insert(0, c); ("moved to the front", None) }
+		_ => {
+			let key = cps_str("zz/Unrelated");
+			if keys.contains(&key) { return; }
+			let mut names: NamesRow = vec![None; m.ns.len()]; names[0] = Some(key.clone()); names[ns] = Some(cps_str("Any$Name"));
+			let at = rng.below(m2.classes.len() + 1);
+			m2.classes.insert(at, MClass { names, doc: None, fields: vec![], methods: vec![] });
+			("added", Some(key))
+		}
+	};
+	r.count(&format!("frame_probe:{tag}"));
+	crumb(&replay("the harness process died inside extend_inner_class_names on this input", &m2, name, ""));
+	let what = format!("extend_inner_class_names: the result for a class changed although only a class that is NOT one of its outer classes was {tag}");
+	match run_impl(&m2, &name_s).map(|o| o.extend) {
+		Ok(Ok(Some(e2))) => {
+			for c2 in &e2.classes {
+				if c2.names[0] == skip { continue; }
+				let before = e.classes.iter().find(|c| c.names[0] == c2.names[0]);
+				if before != Some(c2) {
+					r.violation(what.clone(), replay(&what, m, name, &format!("the class {} was {tag}; extension of the original:\n{}extension of the changed set:\n{}", skip.as_ref().or(leaf_key.as_ref()).map_or("?".into(), |k| show(k)), show_mappings(&e), show_mappings(&e2))));
+					return;
+				}
+			}
+		}
+		other => r.violation(what.clone(), replay(&what, m, name, &format!("the class {} was {tag}; the original extends fine, the changed set gives {}\nchanged set:\n{}", skip.as_ref().or(leaf_key.as_ref()).map_or("?".into(), |k| show(k)),
+			match other { Ok(Ok(None)) => "Err".to_string(), Ok(Err(p)) => format!("panic {p}"), Err(e) => format!("not constructible {e}"), _ => String::new() }, show_mappings(&m2)))),
+	}
+}
+
+/// run the implementation's own extension through everything once more (extension of an already extended set: never
+/// fails, prepends the outer names again; contracting it still gives the innermost simple names)
+fn again(r: &mut Report, seen: &mut Seen, m: &MMappings, name: &[u32]) {
+	let Some(name_s) = name.iter().map(|&c| char::from_u32(c)).collect::<Option<String>>() else { return };
+	if let Ok(Outcome { extend: Ok(Some(e)), .. }) = run_impl(m, &name_s) {
+		if e != *m {
+			through(r, seen, "extended-again", &e, name, false);
+			// second extension must succeed (all outer classes are still there and named)
+			match run_impl(&e, &name_s).map(|o| o.extend) {
+				Ok(Ok(Some(e2))) => { r.count(if e2 == e { "extended-again:fixpoint" } else { "extended-again:grows" }); }
+				_ => { let what = "extend_inner_class_names fails on (or cannot digest) its own result"; r.violation(what.into(), replay(what, &e, name, "")); }
+			}
+		}
+	}
+}
+
+/// k branches R_j, R_j$L1, R_j$L1$L2, ... whose classes have, level by level, the SAME names in the target namespace
+/// (only the roots' target names differ — or, with `same_roots`, not even those); depth >= 3
+fn gen_twins(rng: &mut Rng, n: usize, target: usize) -> MMappings {
+	let k = rng.range(2, 3); let depth = rng.range(2, 4);
+	let same_roots = rng.chance(1, 4);
+	let level_src: Vec<S> = (0..depth).map(|_| simple(rng)).collect();
+	let level_tgt: Vec<S> = (0..depth).map(|_| simple(rng)).collect();
+	let root_tgt = top_name(rng);
+	let mut classes = vec![];
+	let mut used: Vec<S> = vec![];
+	for j in 0..k {
+		let mut src = top_name(rng);
+		while used.contains(&src) { src.push('x' as u32); }
+		used.push(src.clone());
+		for d in 0..=depth {
+			let mut names: NamesRow = vec![Some(src.clone())];
+			for col in 1..n {
+				names.push(if col == target {
+					Some(if d == 0 { if same_roots { root_tgt.clone() } else { let mut t = root_tgt.clone(); t.extend(cps_str(&j.to_string())); t } } else { level_tgt[d - 1].clone() })
+				} else if rng.chance(1, 3) { None } else { Some(simple(rng)) });
+			}
+			classes.push(MClass { names, doc: None, fields: vec![], methods: vec![] });
+			if d < depth { src.push(DOLLAR); src.extend(level_src[d].clone()); }
+		}
+	}
+	match rng.below(3) { 0 => {} 1 => classes.reverse(), _ => rng.shuffle(&mut classes) }
+	let mut nsn: Vec<&str> = NSNAMES.to_vec(); rng.shuffle(&mut nsn);
+	MMappings { ns: nsn[..n].iter().map(|s| cps_str(s)).collect(), doc: None, classes }
+}
+
+/// source names that are NOT nested (flat, or with `$` only where the split refuses it), target names that ARE
+const FLAT_SRC: [&str; 12] = ["a", "b", "c", "net/minecraft/C_12", "$B", "a/$B", "a$b/C", "A$", "$", "x/y/Z", "a$b/c$/D", "Ü"];
+const NESTED_TGT: [&str; 12] = ["org/example/Outer$Inner", "O$I$J", "p/O$I", "Outer$1", "a$b/C$D", "O$I", "Ü$名", "O$$I", "$I", "O$", "p/$I", "a/b$/C"];
+fn gen_flat_nested(rng: &mut Rng, n: usize, target: usize) -> MMappings {
+	let mut classes: Vec<MClass> = vec![];
+	for _ in 0..rng.range(1, 6) {
+		let src = cps_str(*rng.pick(&FLAT_SRC[..]));
+		if classes.iter().any(|c| c.names[0].as_ref() == Some(&src)) { continue; }
+		let mut names: NamesRow = vec![Some(src)];
+		for col in 1..n { names.push(if col == target || rng.chance(1, 2) { Some(cps_str(*rng.pick(&NESTED_TGT[..]))) } else { None }); }
+		classes.push(MClass { names, doc: if rng.chance(1, 4) { Some(cps_str("doc")) } else { None }, fields: vec![], methods: vec![] });
+	}
+	// now and then a really nested class beside them, so that both kinds meet in one set
+	if rng.chance(1, 2) {
+		let a = cps_str("Q"); let mut b = a.clone(); b.push(DOLLAR); b.extend(cps_str("R"));
+		for (src, t) in [(a, "q/Outer$Q"), (b, "In$R")] {
+			let mut names: NamesRow = vec![Some(src)];
+			for col in 1..n { names.push(if col == target { Some(cps_str(t)) } else { None }); }
+			classes.push(MClass { names, doc: None, fields: vec![], methods: vec![] });
+		}
+	}
+	rng.shuffle(&mut classes);
+	let mut nsn: Vec<&str> = NSNAMES.to_vec(); rng.shuffle(&mut nsn);
+	MMappings { ns: nsn[..n].iter().map(|s| cps_str(s)).collect(), doc: None, classes }
+}
+
+/// one long chain A$a$b$..., listed innermost first, every class named in the target namespace
+fn gen_deep_chain(depth: usize, tail_unnamed: bool) -> MMappings {
+	let mut classes = vec![];
+	let mut src = cps_str("pkg/Deep");
+	for d in 0..=depth {
+		let t = if d == 0 { cps_str("q/Root") } else { cps_str(&format!("n{d}")) };
+		classes.push(MClass { names: vec![Some(src.clone()), if tail_unnamed && d == 1 { None } else { Some(t) }], doc: None, fields: vec![], methods: vec![] });
+		src.push(DOLLAR); src.push('a' as u32 + (d % 26) as u32);
+	}
+	classes.reverse();
+	MMappings { ns: vec![cps_str("official"), cps_str("named")], doc: None, classes }
+}
+
 const WEIRD_SRC: [&str; 16] = ["A$", "$B", "A$$B", "a/$B", "a$b/C", "A$B$", "$", "$$", "a/b$c/D$E", "A$B/C$D", "/A$B", "A/", "A$1", "A$1$2", "a/A$B$C", "A$ $B"];
 
 // ---------------------------------------------------------------------------------------------
@@ -448,7 +647,7 @@ pub fn run(ctx: &Ctx) -> anyhow::Result<Report> {
 	r.shard_size = 120;
 	let mut rng = Rng::new(ctx.seed);
 	let mut seen = Seen::default();
-	r.rule = "Mapping sets with 1..5 namespaces (mostly 2..4), target namespace at every index (non-first for the valid streams), source names forming forests of $-nested classes of depth 0..4 (deeper in the exhaustive chain), outer classes in packages, absent names in every non-first namespace, with and without members/comments, classes in shuffled insertion order. Streams: exhaustive (every sub-chain of A, A$B, .. A$B$C$D$E x every assignment of {absent, simple, package+dollar name} to the second namespace), ok (all hypotheses), broken (an outer class removed or unnamed), nonsimple (simple_names violated), weird-src (source names with misplaced $ and /), ns0 (first namespace), unknown-ns / duplicate namespace names, n1 (one namespace), mapmodel (shared generator, names with packages), fixture (the repository's test). Oracle on the implementation: independent iterative reference extension and contraction, failure iff the reference fails (extend on the FIRST namespace: must fail when there are classes; on a set without classes Err and Ok-unchanged are both accepted — outside the property's quantifier), contract(extend(M)) == M whenever simple_names holds, IndexMap keys still in sync. An input is non-trivial when at least one class with a nested source name has a name in the target namespace; distinct by (namespace, canonical Gallina text).".into();
+	r.rule = "Mapping sets with 1..5 namespaces (mostly 2..4), target namespace at every index (non-first for the valid streams), source names forming forests of $-nested classes of depth 0..4 (deeper in the exhaustive chain), outer classes in packages, absent names in every non-first namespace, with and without members/comments, classes in shuffled insertion order. Streams: exhaustive (every sub-chain of A, A$B, .. A$B$C$D$E x every assignment of {absent, simple, package+dollar name} to the second namespace), ok (all hypotheses), broken (an outer class removed or unnamed), nonsimple (simple_names violated), weird-src (source names with misplaced $ and /), ns0 (first namespace), unknown-ns / duplicate namespace names, n1 (one namespace), mapmodel (shared generator, names with packages), fixture (the repository's test); round 4: twin-branches (2-3 branches of depth 3-5 whose classes carry level by level EQUAL names in the target namespace, roots' target names differing or equal too, listed outer-first / inner-first / shuffled), flat-source-nested-target (source names that are not nested — flat, leading `$`, `$` in the package part — under target names that are: org/example/Outer$Inner, O$I$J, $I, O$ ...), extended-again (the implementation's own extension extended once more: must succeed), deep-chain (one chain of depth 24..56, thorough 96, innermost class first; a crumb is written before every call so that a death inside the recursive parent lookup is reported with its input), frame probes (a class that is nobody's outer class removed / unnamed / renamed / moved / an unrelated class added: every other class must come out as before), contraction applied twice (idempotent, result never splittable), valid object class names in => valid names out (ObjClassName::check_valid on the chosen column before and after both calls), get_simple_name / check_valid / as_class_name on every name seen. Oracle on the implementation: independent iterative reference extension and contraction, failure iff the reference fails (extend on the FIRST namespace: must fail when there are classes; on a set without classes Err and Ok-unchanged are both accepted — outside the property's quantifier), contract(extend(M)) == M whenever simple_names holds, IndexMap keys still in sync. An input is non-trivial when at least one class with a nested source name has a name in the target namespace; distinct by (namespace, canonical Gallina text).".into();
 
 	r.notes.push("contract_inner_class_names on the FIRST namespace used to rewrite the node names and leave the IndexMap keys stale (found by the key-sync oracle of this harness on the repository's own fixture); repaired by /repo commit 4d8ec0a (`fix: contract_inner_class_names refuses the first namespace`), the model follows the repaired code; the ns0 stream re-checks it on every run".into());
 	r.notes.push("correspondence cases are sent in compact form (CRun): the harness verifies cell by cell that the implementation's result is the input with only the chosen namespace column of the class rows replaced, sends that column, and Coq rebuilds the full mapping set and compares it in full with the model's result; every 8th-10th input and every input where that verification fails is sent in full (CExtend/CContract)".into());
@@ -537,6 +736,40 @@ pub fn run(ctx: &Ctx) -> anyhow::Result<Report> {
 		let full = rng.chance(1, 8);
 		through(&mut r, &mut seen, "mapmodel", &m, &m.ns[t].clone(), full);
 	}
+	// 5a. round 4: separate generator state, so that the streams above stay what they were
+	{
+		let mut rng4 = Rng::new(ctx.seed ^ 0xC11_0004);
+		// two or three branches with level-by-level EQUAL target names, depth >= 3 (a result remembered under the
+		// outer class's TARGET name instead of its source name would leak from one branch into the other)
+		for i in 0..(if ctx.thorough { 300 } else { 60 }) {
+			let n = rng4.range(2, 4); let t = rng4.range(1, n - 1);
+			let m = gen_twins(&mut rng4, n, t);
+			let name = m.ns[t].clone();
+			through(&mut r, &mut seen, "twin-branches", &m, &name, i % 12 == 0);
+			if i % 3 == 0 { again(&mut r, &mut seen, &m, &name); }
+			if i % 2 == 0 { frame_probe(&mut r, &mut rng4, &m, &name); }
+		}
+		// flat source names under nested target names: contraction must look at the TARGET name only
+		for i in 0..(if ctx.thorough { 300 } else { 60 }) {
+			let n = rng4.range(2, 4); let t = rng4.range(1, n - 1);
+			let m = gen_flat_nested(&mut rng4, n, t);
+			let name = m.ns[t].clone();
+			through(&mut r, &mut seen, "flat-source-nested-target", &m, &name, i % 12 == 0);
+		}
+		// extension of extended sets, frame probes on the ordinary forests
+		for i in 0..(if ctx.thorough { 400 } else { 80 }) {
+			let (cfg, target) = pick_cfg(&mut rng4, ctx.thorough);
+			let m = gen_ok(&mut rng4, &cfg, target);
+			let name = m.ns[target].clone();
+			if i % 2 == 0 { again(&mut r, &mut seen, &m, &name); }
+			frame_probe(&mut r, &mut rng4, &m, &name);
+		}
+		// long chains (the parent lookup recurses once per level), innermost class first
+		for (depth, tail) in [(24usize, false), (40, false), (if ctx.thorough { 96 } else { 56 }, false), (33, true)] {
+			let m = gen_deep_chain(depth, tail);
+			through(&mut r, &mut seen, "deep-chain", &m, &cps_str("named"), false);
+		}
+	}
 	// 6. split / join on the names that occurred
 	seen.strings.sort(); seen.strings.dedup();
 	rng.shuffle(&mut seen.strings);
@@ -558,6 +791,22 @@ pub fn run(ctx: &Ctx) -> anyhow::Result<Report> {
 				}
 				r.case("split-join", format!("CInner {} {} {}", gstr(s), gopt(p.map(|x| gstr(&x))), gopt(i.map(|x| gstr(&x)))));
 			}
+		}
+		match impl_valid(s) {
+			Ok(b) => {
+				if b != ref_valid(s) { r.violation("ObjClassName::check_valid differs from the binary-name grammar".into(), format!("property C11\nname: {}\ncheck_valid: {}\n", show(s), b)); }
+				r.case("valid-name", format!("CValid {} {}", gstr(s), gbool(b)));
+			}
+			Err(p) => r.violation(format!("ObjClassName::check_valid / as_class_name panicked: {p}"), format!("property C11\nname: {}\n", show(s))),
+		}
+		// get_simple_name (the part after the last `/`), the third helper of duke/src/tree/class.rs on these names
+		match impl_simple(s) {
+			Ok(g) => {
+				let want: S = match s.iter().rposition(|&c| c == SLASH) { Some(p) => s[p + 1..].to_vec(), None => s.clone() };
+				if g != want { r.violation("get_simple_name differs from `the part after the last /`".into(), format!("property C11\nname: {}\nget_simple_name: {}\n", show(s), show(&g))); }
+				r.case("simple-name", format!("CSimple {} {}", gstr(s), gstr(&g)));
+			}
+			Err(p) => r.violation(format!("get_simple_name panicked: {p}"), format!("property C11\nname: {}\n", show(s))),
 		}
 	}
 	Ok(r)
